@@ -281,6 +281,13 @@ func lookupMethod(i *interpreter, typ types.Type, meth *types.Func) *ssa.Functio
 	return i.prog.LookupMethod(typ, meth.Pkg(), meth.Name())
 }
 
+// nativeFn is a function value made by the engine (e.g. the no-op
+// CancelFunc of a stubbed context).
+type nativeFn struct {
+	name string
+	f    func(args []value) value
+}
+
 // poisoned is the content of a global whose package initialiser was not run.
 type poisoned struct{ name string }
 
@@ -792,6 +799,8 @@ func call(i *interpreter, caller *frame, callpos token.Pos, fn value, args []val
 			caller = &frame{i: i}
 		}
 		return callBuiltin(caller, callpos, fn, args)
+	case *nativeFn:
+		return fn.f(args)
 	}
 	panic(fmt.Sprintf("cannot call %T", fn))
 }
